@@ -398,6 +398,14 @@ def finish(ctx, level="proof"):
     os.makedirs(os.path.join(VERIF, "replay"), exist_ok=True)
     cov = dict(ctx.coverage)
     cov.setdefault("samples", [])
+    if "exhaustive" in cov and not isinstance(cov["exhaustive"], bool):   # schema: boolean
+        detail = cov.pop("exhaustive")
+        if detail:
+            cov["exhaustive_detail"] = detail
+            cov["exhaustive"] = True
+    for k in ("evaluations", "distinct_nontrivial", "obligations", "discharged"):
+        if k in cov and not isinstance(cov[k], int):
+            cov[k] = int(cov[k])
     if ctx.notes:
         cov["notes"] = ctx.notes[:20]
     if ctx.broken:
